@@ -198,6 +198,17 @@ static void run_group(long gi, void *unused)
         if (pid == 0)
         {
             resume_after_seq = after;
+            if (!getenv("C11_VERBOSE"))
+            {
+                /* sanitizer reports of deliberately provoked faults would flood the log: each one is
+                   reproduced with its full report by --desc / --replay */
+                int fd = open("/dev/null", O_WRONLY);
+                if (fd >= 0)
+                {
+                    dup2(fd, 2);
+                    close(fd);
+                }
+            }
             group_cases(g);
             fflush(NULL);
             _exit(0);
